@@ -22,9 +22,6 @@ package main
 import (
 	"bytes"
 	"fmt"
-	"os"
-	"runtime/pprof"
-	"time"
 
 	"github.com/tink-crypto/tink-go/v2/tink"
 	"verif/h"
@@ -76,11 +73,14 @@ func allCells(nids, npaths int) []cell {
 	return out
 }
 
-// extraIDCells: the remaining ids (index >= 2) once per variant.
-func extraIDCells(nids int) []cell {
+// extraIDCells: the remaining ids (index >= 2), once per variant or (slow schemes) for TINK only.
+func extraIDCells(nids int, allVariants bool) []cell {
 	var out []cell
 	for id := 2; id < nids; id++ {
-		out = append(out, cell{ref.Tink, id, 0, 0}, cell{ref.Crunchy, id, 1, 0}, cell{ref.Raw, id, 1, 0})
+		out = append(out, cell{ref.Tink, id, 0, 0})
+		if allVariants {
+			out = append(out, cell{ref.Crunchy, id, 1, 0}, cell{ref.Raw, id, 1, 0})
+		}
 	}
 	return out
 }
@@ -374,11 +374,6 @@ func exercise(x *h.X, s *scheme, id uint32) {
 }
 
 func main() {
-	if pf := os.Getenv("C06_PROF"); pf != "" {
-		f, _ := os.Create(pf)
-		pprof.StartCPUProfile(f)
-		go func() { time.Sleep(40 * time.Second); pprof.StopCPUProfile(); f.Close() }()
-	}
 	h.Main("C06", "exploration",
 		"product of (HPKE KEM x KDF x AEAD | ECIES curve x hash x point format x DEM x salt) x variant x id x construction path; per case 7 plaintext lengths x 4 context infos: round trip, nil==empty info, tink->reference and reference->tink decryption (stdlib crypto/hpke, RFC 9180 reference, ECIES reference), ciphertext length; mutation catalogue (every bit of prefix / encapsulated key / payload, every cut point, extensions, foreign prefixes, splices, replaced encapsulations incl. invalid points, context-info edits, other private key) must be rejected. Seams: PointEncode/PointDecode on k*G (k=1..4096) per curve and format vs reference; ephemeral keys with short coordinates / short shared secrets in both directions; HPKE context seal/open at extreme sequence numbers vs the RFC reference. A case is non-trivial when primitives were built and exercised; distinct = distinct choice vectors.",
 		[]h.Section{
